@@ -35,8 +35,8 @@ def run(ctx):
         plan = [("16", None, 36, 1)]
         nops = 125
     else:
-        plan = [("16", None, 400, 20), ("1", "1", 60, 0)]
-        nops = 1500
+        plan = [("16", None, 200, 20), ("1", "1", 40, 0)]
+        nops = 900
     bad_k, bad_o, traces, totals = [], [], [], {}
     for tag, nthreads, n, npairs in plan:
         env = {"RAYON_NUM_THREADS": nthreads} if nthreads else {}
@@ -138,8 +138,8 @@ def self_test(ctx, ktrace, otrace):
         return want
 
     def k_ok(c, r):
-        return (r["outcome"] == "ok" and len(r["out"]) > 2 and c["kernel"] == "Generic" or
-                (r["outcome"] == "ok" and len(r["out"]) > 2 and not c["has_za"] and not c["has_zb"] and not c["sat"]))
+        # an exhaustive value-pair case of a non-saturating kernel (uniform zero points: always judged)
+        return r["outcome"] == "ok" and len(r["out"]) > 2 and c["cls"] == "pairs" and not c["sat"]
 
     def k_mut(r):
         r["out"][len(r["out"]) // 2] += 1
@@ -152,7 +152,7 @@ def self_test(ctx, ktrace, otrace):
         r["outs"][3]["data"][0] += 2 * r["outs"][1]["data"][0] + 1
 
     p1 = ctx.path("int8_selftest.ndjson")
-    w1 = corrupt(ktrace, p1, k_ok, k_mut, 120)
+    w1 = corrupt(ktrace, p1, k_ok, k_mut, 7)
     r1 = ctx.tlc_trace(K_SPEC, K_CFG, p1, env=JOPTS)
     ctx.cov["trace_runs"][-1]["role"] = "binding self-test (corrupted trace, expected to be rejected)"
     f1 = {b["rec"].get("id") for b in r1["bad"] if b["sig"].get("pred") == "value" and b["sig"].get("trigger") == "other"}
